@@ -87,10 +87,21 @@ def impl(case):
                           {"weight": 1.0, "delay": float(Fr(d_)), "spread": float(Fr(sp_))}))
         dt = float(Fr(case["dt"]))
         c = CircuitTemplate("c", nodes=nodes, edges=edges)
+        # the documented `decorator=` option of run() / get_run_func(): a pass-through wrapper must not change anything (in particular
+        # it must not make the vector field run an extra time: the ring buffers of discrete delays are its only state)
+        deco_kw = {}
+        if case.get("decorator"):
+            def passthrough(f, tag=None):
+                def wrapped(*args):
+                    return f(*args)
+                return wrapped
+            deco_kw = {"decorator": passthrough}
+            if case["decorator"] == "kwargs":
+                deco_kw["decorator_kwargs"] = {"tag": 1}
         try:
             r = c.run(simulation_time=case["steps"] * dt, step_size=dt, solver=case["solver"], outputs=outs,
                       vectorize=case["vectorize"], float_precision="float64", backend="default", clear=True, verbose=False,
-                      in_place=False)
+                      in_place=False, **deco_kw)
         except (IndexError, ValueError, KeyError, TypeError, AttributeError, NameError, PyRatesException) as e:
             return {"raised": type(e).__name__, "msg": str(e)[:160]}
         cols = [f"n{i}" for i, n in enumerate(case["nodes"]) if n["kind"] != "r"] + [f"tap{j}" for j in range(len(case.get("taps", [])))]
@@ -302,6 +313,8 @@ def gen_case(rng, kind="valid"):
                 if e[3] not in ("nokey", "none") and rng.random() < 0.5:
                     e[3] = str(rng.randint(1, 2))
             case["steps"] = max(case["steps"], max([rhe(Fr(e[3]) / dt) for e in case["edges"] if e[3] not in ("nokey", "none")] + [0]) + 3)
+    if kind in ("valid", "sibling", "spreadsib") and rng.random() < 0.25:
+        case["decorator"] = rng.choice([True, "kwargs"])
     return case
 
 def gen_relay(rng):
@@ -339,7 +352,10 @@ def gen_relay(rng):
         rng.shuffle(edges)
         st = lambda f: 0 if f == "nokey" else rhe(Fr(f) / dt)
         maxd = max([st(a[3]) + st(b[3]) for a in edges for b in edges if a[1] == b[0]] + [st(e[3]) for e in edges])
-        return dict(dt=str(dt), steps=maxd + rng.randint(3, 6), vectorize=vec, solver="euler", nodes=nodes, edges=edges, relay=True)
+        case = dict(dt=str(dt), steps=maxd + rng.randint(3, 6), vectorize=vec, solver="euler", nodes=nodes, edges=edges, relay=True)
+        if rng.random() < 0.25:
+            case["decorator"] = rng.choice([True, "kwargs"])
+        return case
 
 def flatten(case):
     """the two-layer circuit (sources, targets) that a relay circuit means; node j of the flattened circuit is the j-th non-relay node"""
@@ -613,7 +629,7 @@ def check(ctx):
     nt = {canon(c) for i, c in enumerate(cases) if nontrivial(c) and i in in_guard}
     dt_of = lambda c: Fr(c["dt"])
     frac_q = lambda c: sorted({str((Fr(e[3]) / dt_of(c)) % 1) for e in c["edges"] if e[3] not in ("nokey", "none")})
-    hist = dict(adaptive_stream=len(acases), with_spread_sibling=sum(1 for c in cases if c.get("spread_sinks")), relay_circuits=sum(1 for c in cases if c.get("relay")), with_taps=sum(1 for c in cases if c.get("taps")), int_delays=sum(1 for c in cases if c.get("int_delays")), connectivity_stream=len(ci), decimal_step_stream=len(dec_cases), decimal_inexact_quotient=sum(1 for c in dec_cases if c["inexact_quotient"]),
+    hist = dict(with_decorator=sum(1 for c in cases if c.get("decorator")), adaptive_stream=len(acases), with_spread_sibling=sum(1 for c in cases if c.get("spread_sinks")), relay_circuits=sum(1 for c in cases if c.get("relay")), with_taps=sum(1 for c in cases if c.get("taps")), int_delays=sum(1 for c in cases if c.get("int_delays")), connectivity_stream=len(ci), decimal_step_stream=len(dec_cases), decimal_inexact_quotient=sum(1 for c in dec_cases if c["inexact_quotient"]),
                 vectorized=sum(1 for c in cases if c["vectorize"]), heun=sum(1 for c in cases if c["solver"] == "heun"),
                 in_guard=len(in_guard), guard_violating={g: len(gfalse[g]) for g in GUARDS},
                 raised=sum(1 for o in outs if isinstance(o, dict) and "raised" in o),
